@@ -161,6 +161,11 @@ def flush_contract(world, b):
     clears = [e for e in eng.events if base_name(e) == "std::collections::VecDeque::clear"]
     writes = [e for e in eng.events if not e.inlined and (base_name(e).startswith("std::io::Write::") or "as std::io::Write>" in base_name(e))]
     nexts = [e for e in eng.events if base_name(e) == "<std::collections::vec_deque::Iter<'a, T> as std::iter::Iterator>::next"]
+    # or a traversal of the queue's (forward) iterator by a closure-taking adapter
+    adapters = [e for e in eng.events if base_name(e) in ("std::iter::Iterator::try_for_each", "std::iter::Iterator::for_each") and not e.inlined
+                and isinstance(e.args[0], tuple) and ((e.args[0][0] == "agg" and e.args[0][1].get(("$over",)) is not None) or
+                                                      (e.argsnap and isinstance(e.argsnap[0], dict) and e.argsnap[0].get(("$over",)) is not None))]
+    nexts = nexts + adapters
     b.need(len(clears), 1, "queue clear in the flush")
     b.need(len(writes), 1, "file write in the flush")
     b.need(len(nexts), 1, "front-to-back iteration in the flush")
@@ -175,9 +180,14 @@ def flush_contract(world, b):
         b.ob(ok, "flush-writes-element", "the flush does not write the element produced by the queue iterator", w.loc)
     # every cycle of the iteration writes once
     loops = [k for k in eng.loop_invariants if k[0] == eng.entry_frame]
+    wn = set(w.node for w in writes)
     for (fid, h) in loops:
-        wn = set(w.node for w in writes)
         b.ob(not g.on_cycle_avoiding((fid, h), avoid_nodes=wn), "flush-skips-element", "an iteration of the flush loop can skip the write of its element")
+    for ad in adapters:
+        # the callable's frames: every path through it passes the write
+        for fid2 in set(n[0] for n in g.succ if len(n[0]) == len(ad.ctx) + 1 and n[0][:len(ad.ctx)] == ad.ctx and n[0][-1][0] == "call" and n[0][-1][3] == ad.bb):
+            b.ob((fid2, "ret") not in g.reachable([(fid2, 0)], avoid_nodes=wn), "flush-skips-element", "a call of the flush closure can skip the write of its element", ad.loc)
+    b.ob(bool(loops) or bool(adapters), "flush-no-iteration", "the flush does not iterate over the queue", nontrivial=False)
     # clear only after the loop finished without error: clear node not reachable from a failed write's edge, and dominated by the iterator's None
     for cl in clears:
         for w in writes:
@@ -188,7 +198,7 @@ def flush_contract(world, b):
             for edge, conds in eng.edge_conds.items():
                 for cnd in conds:
                     if cnd[0] in ("eq",) and single_sym(cnd[1]) == fc[0] and cnd[2] == fc[1]:
-                        if cl.node in g.reachable([edge[1]]):
+                        if cl.node in g.reachable([], src_edges=[edge]):
                             bad = True
             b.ob(not bad, "clear-after-failed-write", "the queue is cleared although a write failed (acknowledged data would be lost)", cl.loc)
         # not inside the loop
@@ -225,14 +235,12 @@ def sink_clause(world, eng, Rv, d):
         okt, pi = truncating_open(Rv, e)
         d.ob(okt, "sink-not-truncating-create", "the upload target is opened with %s without truncation: a shorter upload leaves the tail of the old file" % base_name(e), e.loc,
              sample={"open call": base_name(e)})
-        v = e.args[pi] if len(e.args) > pi else None
-        ok = isinstance(v, tuple) and v[0] == "r" and v[1][0] == "L" and v[1][1] == Rv.root_fid
+        ok = env_key(Rv, e, pi) is not None
         d.ob(ok, "sink-path-provenance", "the created file's path is not a captured value of the worker closure", e.loc)
 
 
 def payload_bound(world, eng, Rv, e_):
     prog = world.lib
-    fi_blk = prog.field_index(WORKER, "blk_size")
     recvs = [e for n in Rv.recv_nodes() for e in Rv.by_node[n] if not e.inlined]
     lps = Rv.transfer_loops()
     loopn = Rv.loop_nodes(*lps[0]) if lps else set()
